@@ -30,7 +30,7 @@ def gen_expr(rng, tag):
     """Returns token list; REC is the command except in the missing-command shape."""
     kind = rng.choice(["-exec", "-exec", "-execdir"])
     tmpl = gen_template(rng)
-    shape = rng.choice(["plain", "after-test", "negated", "in-or", "twice", "missing-command", "after-type"])
+    shape = rng.choice(["plain", "after-test", "negated", "in-or", "twice", "missing-command", "after-type", "unexecutable-command"])
     cmd = common.REC
     ex = [kind, cmd, tag] + tmpl + [";"]
     if shape == "plain":
@@ -45,13 +45,18 @@ def gen_expr(rng, tag):
         toks = ["-type", "d", "-o"] + ex + ["-printf", "T:%p\\0"]
     elif shape == "twice":
         toks = ex + [kind, cmd, tag + "b"] + gen_template(rng) + [";", "-printf", "TT:%p\\0"]
+    elif shape == "unexecutable-command":
+        # the command exists but cannot be run (no execute bit / a directory / garbage with the execute bit): the action is
+        # false and find's own exit status stays 0, exactly as for a missing command
+        bad = rng.choice(["NOEXEC", "CMDDIR", "GARBAGE"])
+        toks = [kind, "@" + bad + "@", tag] + tmpl + [";", "-printf", "T:%p\\0", "-o", "-printf", "F:%p\\0"]
     else:
         toks = [kind, "/nonexistent/verif-cmd", tag] + tmpl + [";", "-printf", "T:%p\\0", "-o", "-printf", "F:%p\\0"]
     return ["-sorted"] + toks, shape, kind, tmpl
 
 
 def missing_truth(argv, e):
-    if argv[0] == "/nonexistent/verif-cmd":
+    if argv[0] == "/nonexistent/verif-cmd" or "/verif-badcmd-" in argv[0]:
         return False
     return exec_truth(argv, e)
 
@@ -66,6 +71,18 @@ def worker(job):
             sb = os.path.join(base, "t%d" % t)
             os.makedirs(sb)
             nodes = treegen.hostile_tree(rng, "r", max_nodes=rng.choice([5, 10, 20]))
+            raw_names = False
+            if rng.random() < 0.3:
+                # names that are not valid UTF-8 (carried as surrogate escapes): {} must still receive the exact bytes
+                raw_names = True
+                dirs_ = [n.path for n in nodes if n.kind == "d"]
+                for nm in rng.sample(["caf\udce9", "x\udcff", "\udce8re", "a\udc80b", "\udcfe\udcff", "é\udce9", "sp \udca0"], rng.randint(1, 3)):
+                    pth = rng.choice(dirs_) + "/" + nm
+                    if all(n.path != pth for n in nodes):
+                        nodes.append(treegen.Node(pth, rng.choice(["f", "f", "d"])))
+                        if nodes[-1].kind == "d":
+                            dirs_.append(pth)
+                st.inc("trees_with_non_utf8_names")
             try:
                 treegen.build(sb, nodes)
             except OSError:
@@ -76,6 +93,19 @@ def worker(job):
                     st.add("hostile_classes", c)
             tag = "X%d_%d" % (k, t)
             toks, shape, kind, tmpl = gen_expr(rng, tag)
+            if shape == "unexecutable-command":
+                bd = os.path.join(base, "verif-badcmd-%d" % t)
+                os.makedirs(bd, exist_ok=True)
+                paths = {"@NOEXEC@": os.path.join(bd, "noexec"), "@CMDDIR@": os.path.join(bd, "cmddir"), "@GARBAGE@": os.path.join(bd, "garbage")}
+                with open(paths["@NOEXEC@"], "w") as f_:
+                    f_.write("#!/bin/sh\nexit 0\n")
+                os.chmod(paths["@NOEXEC@"], 0o644)
+                os.makedirs(paths["@CMDDIR@"], exist_ok=True)
+                with open(paths["@GARBAGE@"], "wb") as f_:
+                    f_.write(b"\x00\x01\x02 not an executable format \xff\n")
+                os.chmod(paths["@GARBAGE@"], 0o755)
+                toks = [paths.get(x, x) for x in toks]
+                st.inc("unexecutable_command_runs")
             log = os.path.join(sb, "rec.log")
             env = common.clean_env({"VERIF_REC_LOG": log, "VERIF_REC_FN": "outcome6"})
             rc, out, err, to = common.run_cmd([common.FIND, "r"] + toks, cwd=sb, env=env, timeout=120)
@@ -126,7 +156,13 @@ def worker(job):
                     if os.path.normpath(g[0]) != os.path.normpath(wv[0]):
                         problems.append("working directory %r expected %r (argv %r)" % (g[0], wv[0], g[1][:3]))
                         break
-            d = refeval.match_chunks(out, renv.sinks.get("stdout", []))
+            chunks = renv.sinks.get("stdout", [])
+            if raw_names:
+                # -printf renders such names lossily (U+FFFD); the truth labels are compared after the same conversion
+                exp_b = b"".join(c[1] for c in chunks).decode("utf-8", "replace").encode("utf-8")
+                d = None if exp_b == out else "labelled output differs (compared after lossy conversion): expected %r, observed %r" % (exp_b[:120], out[:120])
+            else:
+                d = refeval.match_chunks(out, chunks)
             if d:
                 problems.append("truth value / following action: " + d)
             if rc != 0:
@@ -154,5 +190,6 @@ def run(ctx):
     n = ctx.scale(480, 16000)
     ctx.pmap(worker, [(k, n // nw, ctx.seed) for k in range(nw)])
     for key in ("kind:-exec", "kind:-execdir", "missing_command_runs", "templates_with_0_braces", "templates_with_3_braces", "shape:negated", "child_outcome:SIGKILL",
-                "child_outcome:SIGTERM", "child_outcome:exit3", "child_outcome:exit0"):
+                "child_outcome:SIGTERM", "child_outcome:exit3", "child_outcome:exit0", "trees_with_non_utf8_names",
+                "unexecutable_command_runs"):
         ctx.require(key, 3)
